@@ -43,6 +43,7 @@ let known = ref 0
 let nontrivial = ref 0
 let samples_left = ref 5
 let fidelity = ref 0
+let skipped = ref 0
 let dedupe = ref true
 let seen : (int, unit) H.t = H.create 100000
 let max_report = 50
@@ -491,6 +492,7 @@ let relay_oracle fam input orc =
   if orc <> "ok" then begin
     if is_prefix "KNOWN " orc then
       (match split_on ' ' orc with _ :: key :: _ -> known_hit fam key input | _ -> ())
+    else if is_prefix "SKIP" orc then incr skipped
     else oracle_fail fam input orc
   end
 let codes s = L.map (fun t -> n_of_int (int_of_string t)) (words s)
@@ -516,6 +518,62 @@ let handle_lit fields =
     relay_oracle "lit" input orc
   | _ -> raise (Parse "bad lit line")
 
+
+(* ---------- family: use (usage rules, C13) ---------- *)
+let usym_of_string s =
+  match split_on ':' s with
+  | ["g"; a; b] -> Usage.YGate (n_of_string a, n_of_string b)
+  | ["d"] -> Usage.YDef N0 | ["q"] -> Usage.YQubit | ["a"] -> Usage.YQubitArr
+  | ["c0"] -> Usage.YClassical false | ["c1"] -> Usage.YClassical true | ["u"] -> Usage.YUndef
+  | _ -> raise (Parse ("usage symbol " ^ s))
+let uoperand_of_string s =
+  let sym c = match c with
+    | 'q' -> Usage.YQubit | 'a' -> Usage.YQubitArr | 'c' -> Usage.YClassical false | 'k' -> Usage.YClassical true
+    | 'u' -> Usage.YUndef | 'g' -> Usage.YGate (N0, n_of_int 1) | 'd' -> Usage.YDef N0
+    | _ -> raise (Parse ("operand " ^ s)) in
+  if s = "hw" then Usage.OHw
+  else if String.length s = 2 && s.[0] = 'i' then Usage.OIdent (sym s.[1])
+  else if String.length s = 2 && s.[0] = 'x' then Usage.OIndexed (sym s.[1])
+  else raise (Parse ("operand " ^ s))
+let uops s = if s = "-" then [] else L.map uoperand_of_string (split_on ',' s)
+let uscope = function "G" -> Usage.ScGlobal | "L" -> Usage.ScLocal | "S" -> Usage.ScSubroutine | s -> raise (Parse ("scope " ^ s))
+let usite_of_string s =
+  match words s with
+  | ["gc"; callee; np; ops] -> Usage.SGateCall (usym_of_string callee, n_of_string np, uops ops)
+  | ["me"; o] -> Usage.SMeasure (uoperand_of_string o)
+  | ["re"; o] -> Usage.SReset (uoperand_of_string o)
+  | ["ba"; ops] -> Usage.SBarrier (uops ops)
+  | ["bo"; l; r] -> Usage.SBinOp (l = "1", r = "1")
+  | ["dc"; e; n] -> Usage.SDefCall (n_of_string e, n_of_string n)
+  | ["as"; t] -> Usage.SAssign (usym_of_string t)
+  | ["qd"; sc] -> Usage.SQubitDecl (uscope sc)
+  | ["gd"; sc] -> Usage.SGateDef (uscope sc)
+  | ["dd"; sc] -> Usage.SDefDef (uscope sc)
+  | ["rt"; sc] -> Usage.SReturn (uscope sc)
+  | ["dl"; d] -> Usage.SDelay (d = "1")
+  | _ -> raise (Parse ("site " ^ s))
+let udiag_name d =
+  match int_of_n (Usage.diag_code d) with
+  | 0 -> "NumGateParamsError" | 1 -> "NumGateQubitsError" | 2 -> "NumDefParamsError" | 3 -> "IncompatibleTypesError"
+  | 4 -> "MutateConstError" | 5 -> "NotInGlobalScopeError" | 6 -> "ReturnInGlobalScopeError" | 7 -> "UndefGateError"
+  | _ -> "UndefVarError"
+let handle_use fields =
+  match fields with
+  | [input; impl; orc] ->
+    let sites = L.map usite_of_string (split_on ';' input) in
+    let model = L.concat_map Usage.site_diags sites in
+    count_case input (model <> [] || L.length sites > 1); sample "use" input impl;
+    if impl = "PANIC" || impl = "SYNTAX" then relay_oracle "use" input orc
+    else begin
+      let m = String.concat "," (L.map udiag_name model) in
+      if is_prefix "SKIP" orc then incr skipped
+      else begin
+        if m <> impl then mismatch "use" (input ^ " ;; " ^ orc) impl m;
+        if is_prefix "FAIL" orc then oracle_fail "use" input orc
+      end
+    end
+  | _ -> raise (Parse "bad use line")
+
 (* ---------- main loop ---------- *)
 let () =
   Array.iter (fun a -> if a = "--nodedupe" then dedupe := false) Sys.argv;
@@ -536,6 +594,7 @@ let () =
              | "semt" -> handle_semt fields
              | "semw" -> handle_semw fields
              | "lit" -> handle_lit fields
+             | "use" -> handle_use fields
              | _ -> raise (Parse ("unknown family " ^ fam)))
           with Parse m -> report "DRIVER-ERROR" [m; line]; incr mismatches)
        | [] -> ()
@@ -544,4 +603,4 @@ let () =
   types_finish ();
   report "SUMMARY" [ "cases=" ^ string_of_int !cases; "nontrivial=" ^ string_of_int !nontrivial;
                      "mismatch=" ^ string_of_int !mismatches; "oracle=" ^ string_of_int !oracle_fails;
-                     "known=" ^ string_of_int !known; "fidelity=" ^ string_of_int !fidelity ]
+                     "known=" ^ string_of_int !known; "fidelity=" ^ string_of_int !fidelity; "skipped=" ^ string_of_int !skipped ]
